@@ -368,3 +368,100 @@ def unit_log():
 
 
 UNITS += [unit_log()]
+
+
+# ------------------------------------------------------------------------------------------------------------------------------------
+# fanout_arc_waits_{atomic,full_sync,crossbeam}: the SAME `send_derived` of the three Arc Multi channels once more, this time WITHOUT assuming that
+# every listener queue has room: whether an enqueue attempt is accepted is decided by the queue's fill level, which the environment changes at
+# every sleep of the waiting arm (consumers run meanwhile). C03: however long it has to wait, when `send_derived` returns EVERY live listener has
+# been handed the event exactly once (ghost `pushed[id]` counts the accepted enqueues of this event per listener) and no other queue was touched --
+# an attempt that was refused must be repeated until it is accepted, never given up. (That it returns at all: the consumers' progress -- not proved.)
+# ------------------------------------------------------------------------------------------------------------------------------------
+SPEC_WAITS = r"""
+use core::num::NonZeroU32;
+pub struct ArcItem { pub alloc: Ghost<int> }
+impl ArcItem { #[verifier::external_body] pub fn clone(&self) -> (r: ArcItem) ensures r.alloc == self.alloc { unimplemented!() } }
+pub struct SendError { pub v: u8 }
+pub struct StreamsManagerBase<const MAX_STREAMS: usize> { pub used_streams: [u32; MAX_STREAMS], pub used_streams_count: AtomicU32 }
+impl<const MAX_STREAMS: usize> StreamsManagerBase<MAX_STREAMS> {
+    #[verifier::external_body]
+    pub fn wake_stream(&self, stream_id: u32) requires (stream_id as int) < MAX_STREAMS { }
+    pub open spec fn inv_sm(&self) -> bool {
+        &&& self.used_streams_count@ as int <= MAX_STREAMS <= 0x7fff_ffff
+        &&& forall|i: int| 0 <= i < self.used_streams_count@ ==> (#[trigger] self.used_streams[i] as int) < MAX_STREAMS
+        &&& forall|i: int, j: int| 0 <= i < j < self.used_streams_count@ ==> self.used_streams[i] != self.used_streams[j]
+        &&& forall|i: int| self.used_streams_count@ <= i < MAX_STREAMS ==> self.used_streams[i] == u32::MAX
+    }
+}
+pub struct Channel<const BUFFER_SIZE: usize, const MAX_STREAMS: usize> {
+    pub streams_manager: StreamsManagerBase<MAX_STREAMS>,
+    /// ghost: current fill level of each listener's queue (changed by the environment at every sleep)
+    pub lens: Ghost<Seq<nat>>,
+    /// ghost: accepted enqueues of THIS event, per listener
+    pub pushed: Ghost<Seq<nat>>,
+}
+impl<const BUFFER_SIZE: usize, const MAX_STREAMS: usize> Channel<BUFFER_SIZE, MAX_STREAMS> {
+    pub open spec fn wf(&self) -> bool { self.streams_manager.inv_sm() && self.lens@.len() == MAX_STREAMS && self.pushed@.len() == MAX_STREAMS && BUFFER_SIZE >= 3 }
+    pub open spec fn frame(&self, o: &Self) -> bool { self.streams_manager == o.streams_manager && self.lens@.len() == o.lens@.len() && self.pushed@.len() == o.pushed@.len() }
+    /// ring `publish_movable(handle)` of listener `id`: accepted <=> its queue has room right now
+    #[verifier::external_body]
+    pub fn publish_to(&mut self, stream_id: u32, handle: ArcItem) -> (r: (Option<NonZeroU32>, Option<ArcItem>))
+        requires (stream_id as int) < MAX_STREAMS, old(self).lens@.len() == MAX_STREAMS, old(self).pushed@.len() == MAX_STREAMS,
+        ensures final(self).frame(old(self)),
+                old(self).lens@[stream_id as int] < BUFFER_SIZE ==> r.0 is Some && final(self).pushed@ == old(self).pushed@.update(stream_id as int, old(self).pushed@[stream_id as int] + 1),
+                old(self).lens@[stream_id as int] >= BUFFER_SIZE ==> r.0 is None && final(self).pushed == old(self).pushed && final(self).lens == old(self).lens,
+    { unimplemented!() }
+    /// crossbeam `sender.len()` / `sender.try_send(handle)` (ASSUMED bounded FIFO)
+    #[verifier::external_body]
+    pub fn sender_len(&self, stream_id: u32) -> (r: usize) requires (stream_id as int) < MAX_STREAMS, self.lens@.len() == MAX_STREAMS ensures r == self.lens@[stream_id as int] { unimplemented!() }
+    #[verifier::external_body]
+    pub fn try_send_to(&mut self, stream_id: u32, handle: ArcItem) -> (r: Result<(), SendError>)
+        requires (stream_id as int) < MAX_STREAMS, old(self).lens@.len() == MAX_STREAMS, old(self).pushed@.len() == MAX_STREAMS,
+        ensures final(self).frame(old(self)),
+                old(self).lens@[stream_id as int] < BUFFER_SIZE ==> r is Ok && final(self).pushed@ == old(self).pushed@.update(stream_id as int, old(self).pushed@[stream_id as int] + 1),
+                old(self).lens@[stream_id as int] >= BUFFER_SIZE ==> r is Err && final(self).pushed == old(self).pushed && final(self).lens == old(self).lens,
+    { unimplemented!() }
+    /// `std::thread::sleep(..)` of the waiting arm (R11): the consumers run -- every queue's fill level is whatever they made of it; nothing is enqueued
+    #[verifier::external_body]
+    pub fn env_sleep(&mut self) ensures final(self).frame(old(self)), final(self).pushed == old(self).pushed { }
+}
+"""
+
+
+def unit_arc_waits(kind, file, attempt_rules):
+    impl = r"ChannelProducer\s*<\s*'a\s*,\s*ItemType\s*,\s*Arc\s*<\s*ItemType\s*>\s*>\s*for\s+\w+\s*<[^{]*(?=\{)"
+    US, CNT = "old(self).streams_manager.used_streams", "old(self).streams_manager.used_streams_count@"
+    DONE = lambda upto: ("forall|k: int| 0 <= k < " + upto + " ==> self.pushed@[" + US + "[k] as int] == old(self).pushed@[" + US + "[k] as int] + 1,"
+                         " forall|id: int| 0 <= id < MAX_STREAMS && (forall|k: int| 0 <= k < " + upto + " ==> (#[trigger] " + US + "[k]) as int != id) ==> self.pushed@[id] == old(self).pushed@[id],")
+    COMMON_INV = "old(self).wf(), self.wf(), self.streams_manager == old(self).streams_manager,"
+    f = FnSpec(file, "send_derived", impl=impl, out_name="send_derived_waits", props=["C03", "C10"], attrs="#[verifier::exec_allows_no_decreases_clause]",
+               sig="pub fn send_derived_waits(&mut self, arc_item: &ArcItem) -> (r: bool)", sig_anchor=r"fn send_derived\(&self, arc_item: &Arc<ItemType>\) -> bool",
+               rules=[Rule("R16-iter-index", r"for stream_id in self\.streams_manager\.used_streams\(\)\s*\{",
+                           "let mut vi: usize = 0; while vi < MAX_STREAMS { let stream_id_v = self.streams_manager.used_streams[vi]; let stream_id = &stream_id_v; vi += 1;", count=1,
+                           note="`for x in &array` -> indexed while over a COPY of the entry (same order, same break)"),
+                      Rule("R6-wake", r"\bself\.streams_manager\.wake_stream\(", "self.streams_manager.wake_stream(", min=1),
+                      Rule("R11-sleep", r"std::thread::sleep\(Duration::from_millis\(500\)\);", "self.env_sleep();", count=1)] + attempt_rules,
+               requires="old(self).wf()",
+               ensures="r, final(self).streams_manager == old(self).streams_manager,"
+                       "forall|k: int| 0 <= k < " + CNT + " ==> final(self).pushed@[" + US + "[k] as int] == old(self).pushed@[" + US + "[k] as int] + 1,"
+                       "forall|id: int| 0 <= id < MAX_STREAMS && (forall|k: int| 0 <= k < " + CNT + " ==> (#[trigger] " + US + "[k]) as int != id) ==> final(self).pushed@[id] == old(self).pushed@[id]",
+               loops={0: "invariant_except_break " + COMMON_INV + " vi <= MAX_STREAMS, vi <= " + CNT + ", " + DONE("vi") + "\n"
+                         "ensures old(self).wf(), self.streams_manager == old(self).streams_manager, " + DONE(CNT),
+                      1: "invariant_except_break " + COMMON_INV + " 1 <= vi <= " + CNT + ", stream_id_v == " + US + "[vi - 1], *stream_id == stream_id_v, " + DONE("vi - 1") + "\n"
+                         "ensures self.wf(), self.streams_manager == old(self).streams_manager, " + DONE("vi")},
+               loops_optional=True)
+    f.container = "impl<const BUFFER_SIZE: usize, const MAX_STREAMS: usize> Channel<BUFFER_SIZE, MAX_STREAMS>"
+    return Unit(f"fanout_arc_waits_{kind}", [f], spec=SPEC_WAITS,
+                trusted=["publish_to / try_send_to / sender_len: the listener queue's contract (accepted <=> room right now), env_sleep: the environment", "wake_stream, Arc::clone: shims"],
+                assumptions=["termination of the waiting arm (consumer progress) is NOT proved", "BUFFER_SIZE >= 3 (the crossbeam channel's `len_before <= 2 => try_send once` arm relies on it)",
+                             "listener churn during the loop is NOT decided (C17)"])
+
+
+RING_ATTEMPT = [Rule("R6-queue", r"let channel = unsafe \{ self\.channels\.get_unchecked\(\*stream_id as usize\) \};", "", count=1, note="unchecked queue lookup folded into publish_to (index bound obligation)"),
+                Rule("R6-publish", r"\bchannel\.publish_movable\(arc_item\.clone\(\)\)", "self.publish_to(*stream_id, arc_item.clone())", count=1)]
+XB_ATTEMPT = [Rule("R6-sender", r"let sender = unsafe \{ self\.senders\.get_unchecked\(\*stream_id as usize\) \};", "", count=1, note="unchecked sender lookup folded into the shims (index bound obligation)"),
+              Rule("R6-sender-len", r"\bsender\.len\(\)", "self.sender_len(*stream_id)", count=1),
+              Rule("R6-try-send", r"\bsender\.try_send\(arc_item\.clone\(\)\)", "self.try_send_to(*stream_id, arc_item.clone())", min=1)]
+UNITS += [unit_arc_waits("atomic", "src/multi/channels/arc/atomic.rs", RING_ATTEMPT),
+          unit_arc_waits("full_sync", "src/multi/channels/arc/full_sync.rs", RING_ATTEMPT),
+          unit_arc_waits("crossbeam", "src/multi/channels/arc/crossbeam.rs", XB_ATTEMPT)]
